@@ -92,7 +92,7 @@ def priorCaches (j : Json) (vars : List Linked) (fresh : List PvCache) (ndv : Na
     let vars' := (vars.zip assigns).map fun (l, a) => { l with assign := a }
     match pyRunC vars' ⟨⟨frame, List.replicate ndv 0⟩, fresh⟩ ops with
     | .ok cs => pure cs.caches
-    | .error _ => none
+    | .error (_, caches) => pure caches      -- the cycle ended with an exception; the bindings made so far stay
 
 def step (j : Json) : Option String := do
   let data ← fBytes j "frame"
@@ -120,9 +120,9 @@ def step (j : Json) : Option String := do
         | some p =>
           let pyS := match py with
             | .ok s => s!"py={hexOfBytes s.st.data} pyv={commaInts s.st.dvs} reads={showReads (readAllC vars s.st.data s.caches)}"
-            | .error .structError => "py=struct-error pyv=- reads=-"
-            | .error .assertion => "py=assertion-error pyv=- reads=-"
-            | .error .badIndex => "py=bad-index pyv=- reads=-"
+            | .error (.structError, _) => "py=struct-error pyv=- reads=-"
+            | .error (.assertion, _) => "py=assertion-error pyv=- reads=-"
+            | .error (.badIndex, _) => "py=bad-index pyv=- reads=-"
           -- what Python's get sees in the frame that came back from the program (fast_update; fresh objects)
           let back := readAllC vars (p.frame.drop hdr.length) fresh
           pure (s!"starts={commaNats ss} addrs={commaNats as} " ++ pyS ++
